@@ -45,6 +45,8 @@ class _Base(Harness):
         else:
             # every old interval still exists with its content; every other interval is empty
             ba, bb = a["bins"][0], b["bins"][0]
+            if len(b["freq"]) != len(bb) or len(b["err2"]) != len(bb) or len(a["freq"]) != len(ba):
+                return z3.BoolVal(False)
             for j, (l, r) in enumerate(ba):
                 hit = [z3.And(cx.t(l) == cx.t(l2), cx.t(r) == cx.t(r2), self._same_num(cx, a["freq"][j], b["freq"][k]), self._same_num(cx, a["err2"][j], b["err2"][k])) for k, (l2, r2) in enumerate(bb)]
                 conj.append(z3.Or(hit) if hit else z3.BoolVal(False))
